@@ -621,7 +621,7 @@ func main() {
 	simrt.UnlockHook = sched.Unlocked
 	simrt.AcquiredHook = sched.Acquired
 	super.Main(world{}, super.Config{
-		QuickCases:       60,
+		QuickCases:       500,
 		ThoroughSeconds:  900,
 		CasesPerProcess:  1,
 		CaseTimeout:      60e9,
